@@ -84,7 +84,7 @@ class Pipes:
         return getattr(os, name)
 
 
-def make_harness(cycles, nwrites, nrecv, maxdelay):
+def make_harness(cycles, nwrites, nrecv, maxdelay, initbits=False):
     def harness():
         ser = pysym.module("serial")
         pipes = Pipes()
@@ -92,6 +92,13 @@ def make_harness(cycles, nwrites, nrecv, maxdelay):
         ser.os = pipes
         try:
             ch = Channel()
+            # the terminal's toggle bits have arbitrary values when the
+            # master connects
+            if initbits:
+                ch.transmit_accept.value = \
+                    bool(E.bool("transmit_accept_at_start"))
+                ch.receive_request.value = \
+                    bool(E.bool("receive_request_at_start"))
             dev = ser.Serial(ch)
             dev.sync_group = object()
             app_written = b""
@@ -119,7 +126,14 @@ def make_harness(cycles, nwrites, nrecv, maxdelay):
                         d = E.bytes(f"w{i}", n)
                         pipes.write(dev.out_write, d)
                         app_written = app_written + d
+                was_connected = dev.connected
+                idle = t["tx_pending"] is None
+                waiting = pysym.sym_len(pipes.q[dev.out_read])
                 dev.update()
+                if was_connected and idle and bool(waiting > 0):
+                    E.prove(bool(ch.transmit_request.value) != t["last_req"],
+                            f"cycle {cyc}: with data waiting and no chunk "
+                            "outstanding a new chunk is announced")
                 # ---- the terminal's side of the cycle
                 # initialisation
                 if bool(ch.init_request.value):
@@ -206,19 +220,21 @@ def make_harness(cycles, nwrites, nrecv, maxdelay):
 
 def shapes(tier):
     if tier == "quick":
-        return [(6, 1, 1, 1), (7, 2, 0, 1), (7, 0, 2, 1)]
+        return [(6, 1, 1, 1), (7, 2, 0, 1), (7, 0, 2, 1), (5, 1, 1, 0, True)]
     # (three application writes exhaust the path budget even at 7 cycles)
     return [(6, 1, 1, 1), (7, 2, 0, 1), (8, 1, 1, 2), (9, 2, 1, 1),
-            (9, 1, 2, 1), (8, 2, 2, 1), (10, 0, 3, 2)]
+            (9, 1, 2, 1), (8, 2, 2, 1), (10, 0, 3, 2), (6, 1, 1, 1, True)]
 
 
 def worker(args):
-    cycles, nw, nr, md = args
+    cycles, nw, nr, md = args[:4]
+    initbits = len(args) > 4 and args[4]
     res = pyrun.new_res()
     name = (f"{cycles} cycles, {nw} application write(s), {nr} chunk(s) from "
-            f"the terminal, accept delays 0..{md}")
+            f"the terminal, accept delays 0..{md}"
+            + (", toggle bits arbitrary at connection" if initbits else ""))
     try:
-        st = pyrun.run("C28", name, make_harness(cycles, nw, nr, md), res,
+        st = pyrun.run("C28", name, make_harness(cycles, nw, nr, md, initbits), res,
                        maxtime=900, maxpaths=100000,
                        sig=lambda w: w.split(":")[-1].strip()[:70])
         res["samples"].append(dict(harness=name, **{
